@@ -244,6 +244,9 @@ func init() {
 				for _, p := range []string{"before-next", "init-error"} {
 					add(next, faults.Fault{Who: "runtime", Point: p, Action: a, At: 1}, b0)
 				}
+				if next == 0 && a != "exit0" {
+					add(next, faults.Fault{Who: "runtime", Point: "init-error", Action: a, At: 1, Twice: true}, b0)
+				}
 				for _, at := range []int{1, 2} {
 					for _, p := range []string{"after-next", "after-response", "idle"} {
 						add(next, faults.Fault{Who: "runtime", Point: p, Action: a, At: at}, b0)
